@@ -140,6 +140,18 @@ def multi (lg : Logger) (evs : List Ev) (tms : List (Trusted × Msg)) : String :
     then bit (logMsgT tm.1 lg false tm.2).err else "0"
   "w=" ++ ",".intercalate w ++ " err=" ++ String.join errs
 
+/-- `twinf`: the op carries what the unlogged twin's body yields (`k=<n> e=<0|1>`). -/
+def twinf (lg : Logger) (skip : Bool) (t : Trusted) (m : Msg) (k : Nat) (e : Bool) : String :=
+  let b : FBody := { data := (m.body.getD []).take k, err := e }
+  let r := logFault t lg skip m b
+  "fault rec=" ++ bit r.record.isSome ++ " err=" ++ bit r.err ++ " werr=" ++ bit r.body.err
+    ++ " complete=" ++ bit (!r.body.err) ++ s!" fwd={r.body.data.length}"
+
+def parseKE (ks es : String) : Option (Nat × Bool) :=
+  if ks.startsWith "k=" && es.startsWith "e=" then
+    ((ks.drop 2).toString.toNat?).map fun k => (k, (es.drop 2).toString == "1")
+  else none
+
 end Logging
 
 def step (s : St) (toks : List String) : St × String :=
@@ -173,6 +185,13 @@ def step (s : St) (toks : List String) : St × String :=
   | "twinm" :: l :: o1 :: o2 :: mk :: _mode :: tr :: rest =>
     match parseLogger l o1 o2, parseMarks mk, parseTrusted tr, parseMsg rest with
     | some lg, some (pre, post), some t, some m => (s, twinm lg pre post t m)
+    | _, _, _, _ => (s, "bad-op")
+  | "twinf" :: l :: o1 :: o2 :: skip :: _cut :: tr :: rest =>
+    match parseLogger l o1 o2, parseTrusted tr, parseMsg (rest.take 15), rest.drop 15 with
+    | some lg, some t, some m, [ks, es] =>
+      match parseKE ks es with
+      | some (k, e) => (s, twinf lg (skip == "1") t m k e)
+      | none => (s, "bad-op")
     | _, _, _, _ => (s, "bad-op")
   | "multi" :: l :: o1 :: o2 :: sched :: k :: rest =>
     match parseLogger l o1 o2, k.toNat? with
